@@ -90,7 +90,7 @@ def trace_obligations(pid, method, policy, nested):
         st = p.state
         tr = st.trace
         tag = path_tag(policy, nested, n)
-        if pid in ('C14', 'C06', 'C08'):
+        if pid in ('C14', 'C06', 'C08', 'C05', 'C07'):
             # loop contracts met on the path (BEGIN retry loop: nothing changes while waiting for the lock)
             for o in st.obligations:
                 out.append(discharge('%s.%s%s/%s' % (pid, method, tag, o.name), o.kind, o.pc, o.goal,
@@ -157,14 +157,15 @@ def trace_obligations(pid, method, policy, nested):
                         out.append(discharge('C06.%s%s.rollback_restores_view' % (method, tag), 'trace', p.pc,
                                              c03.eq_world(c03.world0(st), st.world), function='Cache.' + method,
                                              path=p.decisions))
-        if pid == 'C07':
+        if pid in ('C07', 'C05'):
             # crash invariant at the commit points: every committed file-backed row has a complete file
             for i in commits:
                 w = tr[i][1]['world']
-                out.append(discharge('C07.%s%s.crash_invariant@commit%d' % (method, tag, i), 'trace', p.pc,
+                nm = 'crash_invariant' if pid == 'C07' else 'committed_values_readable'
+                out.append(discharge('%s.%s%s.%s@commit%d' % (pid, method, tag, nm, i), 'trace', p.pc,
                                      c03.files_agree(w), function='Cache.' + method, path=p.decisions))
             if p.kind == 'return' and not nested:
-                out.append(R('C07.%s%s.completed_is_committed' % (method, tag), not st.world.get('txn.active'), method, p,
+                out.append(R('%s.%s%s.completed_is_committed' % (pid, method, tag), not st.world.get('txn.active'), method, p,
                              'returned with an open transaction'))
         if pid == 'C08':
             out += c08_path(method, tag, p, nested)
